@@ -17,8 +17,16 @@
  *                                        S<us>    sleep
  *                                        k        die by SIGKILL (outside a critical section)
  *                                        K<us>    take the guard, hold, die by SIGKILL inside
+ *                                        H<n>:<timeout_us>:<period_us>
+ *                                                 take the guard and, while inside, send SIGUSR1 every
+ *                                                 <period_us> to each process blocked in sem_wait, until
+ *                                                 <n> waiters have got their answer (or <timeout_us>)
+ *                                        U<us>    install a SIGUSR1 handler WITHOUT SA_RESTART, then
+ *                                                 { MFrontLockGuard g; hold <us> }; an exception thrown by
+ *                                                 the guard (sem_wait failed) is caught and logged `r`
  *   end
  * Every process not killed ends by a normal exit() (static destructors run).
+ * `sem_wait` is interposed: an interrupted call (-1/EINTR) is logged `i<idx>`.
  */
 #include <atomic>
 #include <cerrno>
@@ -66,10 +74,13 @@ struct Shared {
   std::atomic<int> in_cs;
   std::atomic<int> max_in_cs;
   std::atomic<int> entries;
+  std::atomic<int> answered;          // waiters (op U) that entered, or were refused
+  std::atomic<int> blocked_pid[64];   // pid of process idx while it is inside sem_wait, else 0
 };
 
 static int log_fd = -1;
 static int my_idx = -1;
+static bool interruptible = false;  // this process has a SIGUSR1 handler (op U)
 static unsigned long long rng_state = 1;
 static unsigned jitter_us = 0;
 static Shared* shared = nullptr;
@@ -95,6 +106,20 @@ static void log_event(const char c, const int idx) {
 }
 static void log_raw(const std::string& s) {
   if (::write(log_fd, s.c_str(), s.size()) != static_cast<ssize_t>(s.size())) ::_exit(96);
+}
+
+// --- interposed sem_wait: tells the signaller who is blocked, logs the interrupted calls --------------
+extern "C" int sem_wait(sem_t* sem) {
+  using fn = int (*)(sem_t*);
+  static fn real = reinterpret_cast<fn>(::dlsym(RTLD_NEXT, "sem_wait"));
+  const bool known = interruptible && shared != nullptr && my_idx >= 0 && my_idx < 64;
+  if (known) shared->blocked_pid[my_idx] = static_cast<int>(::getpid());
+  const int r = real(sem);
+  const int e = errno;
+  if (known) shared->blocked_pid[my_idx] = 0;
+  if (r == -1 && e == EINTR && my_idx >= 0) log_event('i', my_idx);
+  errno = e;
+  return r;
 }
 
 // --- the hook called by the instrumented MFrontLock.cxx ------------------------------------------
@@ -124,6 +149,26 @@ static void hold(const unsigned us, const bool rendezvous = false) {
   shared->in_cs.fetch_sub(1);
 }
 
+static void usr1_handler(int) {}
+
+// inside the critical section: interrupt the processes blocked in sem_wait until `n` of them have
+// got their answer (entered, or refused by an exception)
+static void hold_and_signal(const int n, const unsigned timeout_us, const unsigned period_us) {
+  const int k = shared->in_cs.fetch_add(1) + 1;
+  int m = shared->max_in_cs.load();
+  while (m < k && !shared->max_in_cs.compare_exchange_weak(m, k)) {
+  }
+  shared->entries.fetch_add(1);
+  for (unsigned t = 0; t < timeout_us && shared->answered.load() < n; t += period_us + 1) {
+    ::usleep(period_us);
+    for (int i = 0; i < 64; ++i) {
+      const int pid = shared->blocked_pid[i].load();
+      if (pid > 0 && i != my_idx) ::kill(pid, SIGUSR1);
+    }
+  }
+  shared->in_cs.fetch_sub(1);
+}
+
 [[noreturn]] static void child(const int idx, const std::vector<std::string>& ops, const unsigned long long seed) {
   my_idx = idx;
   rng_state = seed * 1000003ULL + static_cast<unsigned long long>(idx) * 7919ULL + 17ULL;
@@ -142,6 +187,31 @@ static void hold(const unsigned us, const bool rendezvous = false) {
         case 'B': {
           mfront::MFrontLockGuard g;
           hold(us, true);
+        } break;
+        case 'H': {
+          int n = 1;
+          unsigned timeout = 2000000, period = 500;
+          std::sscanf(op.c_str() + 1, "%d:%u:%u", &n, &timeout, &period);
+          mfront::MFrontLockGuard g;
+          hold_and_signal(n, timeout, period);
+        } break;
+        case 'U': {
+          struct sigaction sa;
+          std::memset(&sa, 0, sizeof(sa));
+          sa.sa_handler = usr1_handler;  // no SA_RESTART: a blocked sem_wait returns -1/EINTR
+          sigemptyset(&sa.sa_mask);
+          ::sigaction(SIGUSR1, &sa, nullptr);
+          interruptible = true;
+          try {
+            mfront::MFrontLockGuard g;
+            hold(us);
+          } catch (std::exception&) {
+            log_event('r', idx);  // lock() refused to enter
+          }
+          interruptible = false;
+          ::signal(SIGUSR1, SIG_IGN);
+          shared->answered.fetch_add(1);
+          ::usleep(3000);  // the signaller may still hold our pid: do not exit at once
         } break;
         case 'S':
           ::usleep(us);
@@ -239,6 +309,8 @@ int main(int argc, char** argv) {
       shared->in_cs = 0;
       shared->max_in_cs = 0;
       shared->entries = 0;
+      shared->answered = 0;
+      for (auto& b : shared->blocked_pid) b = 0;
       std::string status = "ok";
       for (const auto& ph : phases) {
         std::vector<pid_t> pids;
